@@ -90,7 +90,7 @@ func c46Layout(rng *kit.RNG, gi int, thorough bool) []int {
 		n = rng.Range(13, 40)
 	}
 	// sizes are kept small (under the race detector every byte moved costs microseconds on this
-	// machine); one larger blob per file in a third of the files: 64 KiB (quick) / 1 MiB (thorough, 1 in 4)
+	// machine); one larger blob per file in a third of the files: 64 KiB (quick) / 1 MiB (thorough, 1 in 10)
 	bigAt := -1
 	if n > 0 && rng.Chance(1, 3) {
 		bigAt = rng.Intn(n)
@@ -99,7 +99,7 @@ func c46Layout(rng *kit.RNG, gi int, thorough bool) []int {
 		s := kit.Pick(rng, []int{0, 1, 2, 16, 4096})
 		if i == bigAt {
 			s = 65536
-			if thorough && rng.Chance(1, 4) {
+			if thorough && rng.Chance(1, 10) {
 				s = 1 << 20
 			}
 		}
@@ -112,7 +112,7 @@ func TestVerifC46(t *testing.T) {
 	rec := kit.Start(t, "C46", "fuseread")
 	defer rec.Finish()
 	env := rec.Env
-	groups := env.Pick(32, 250)
+	groups := env.Pick(32, 160)
 	// one repository per shard (creating one is very expensive under the race detector)
 	be := kit.NewVBackend(5, true)
 	repo, _ := repository.TestRepositoryWithBackend(t, be, 2, repository.Options{Compression: repository.CompressionOff})
@@ -272,7 +272,7 @@ func c46Group(t *testing.T, rec *kit.Rec, gi int, be *kit.VBackend, repo *reposi
 	// 2. concurrent readers sharing the blob cache
 	var wg sync.WaitGroup
 	var creads atomic.Int64
-	per := rec.Env.Pick(60, 250)
+	per := rec.Env.Pick(60, 120)
 	for w := 0; w < 8; w++ {
 		wg.Add(1)
 		wrng := rec.RNG("reader", gi, w)
